@@ -7,7 +7,10 @@ TITLES = {l["id"]: l["title"] for l in map(json.loads, open(os.path.join(VERIF, 
 TECH = "TLA+ level-A spec; TLC enumerates the bounded instance and its states are replayed into the code; seeded traces of the real code are validated by TLC (trace validation)"
 NOTE = ("Trusted base: the level-A transcription of Python/numpy semantics (spec/abs/PySeq.tla, NpVal.tla; calibrated against CPython/numpy by "
         "./check selftest), TLC, the ~150-line projection of real objects to abstract values (harness/exec_*.py, enc.py). Small-scope: exhaustive only "
-        "within the constants of spec/mc/*.cfg; beyond them sampled. 32/64-bit arithmetic in the no-overflow regime; floats are small dyadic rationals.")
+        "within the constants of spec/mc/*.cfg; beyond them sampled. TLC integers are 32-bit: 64-bit extremes are reached through the high-bits realisation "
+        "(16-bit cases executed in the top 16 bits of the wide dtypes; lemma spec/mech/HiBitsApa.tla) and through 16-bit limbs for value-moving operations and "
+        "totals (NpVal!WideSum); multiplicative 64-bit arithmetic is outside the modelled regime; floats are small dyadic rationals with infinities, NaN and "
+        "negative zero; float16 results are claimed where float16 holds them exactly.")
 
 # property -> (design section, level text)
 _FN = ("Model checking of the level-A specification of this operation family over every shape up to the configured bounds x the argument grammar "
